@@ -271,14 +271,19 @@ func categorical(kvs []*kv) (buckets, error) {
 }
 
 func uniform(kvs []*kv) (buckets, error) {
+	// Only the first value has been checked to be numerical, and not all
+	// numericals can be compared with each other (eg an int with a float).
+	var err error
 	sort.Slice(kvs, func(i, j int) bool {
-		less, err := b6.Less(kvs[i].key, kvs[j].key)
-		if err != nil {
-			panic(err) // Not graceful, but greater should handle all numericals,
-		} // and we do the numerical check in histogram call.
-
+		less, lessErr := b6.Less(kvs[i].key, kvs[j].key)
+		if lessErr != nil && err == nil {
+			err = lessErr
+		}
 		return less
 	})
+	if err != nil {
+		return nil, err
+	}
 
 	var b buckets
 	if (len(kvs)) <= MaxHistogramBuckets {
